@@ -38,16 +38,18 @@ from mpyc import sectypes as _sectypes  # noqa: E402
 
 ID = 'C34'
 LEVEL = 'exploration'
-RULE = ('generated data sets of size 0..12 (duplicates, negatives, constant, two-point, clustered, extreme values; '
+RULE = ('generated data sets of size 0..12 (duplicates, negatives, constant, two-point, clustered, extreme values, '
+        'sample ranges 2^k-1 and 2^k for mode, one/two-point sets whose squared deviations nearly fill the type range; '
         'second data set independent / linearly related / constant) of SecInt(16..64) and SecFxp((16,8)..(64,32), '
         'also l>2f) with uniform integral flags, dealt by generated senders under (m,t,PRSS) configurations (m=1 '
         'about half, else m=2..5 mostly t>=1), 1-4 calls per case of mean, median, median_low, median_high, quantiles '
         '(n in 1..8, both methods), mode, variance, stdev, pvariance, pstdev (xbar/mu absent, secure, the secure mean, '
         'public int for integers), covariance, correlation, linear_regression, data passed as list or iterator; plus '
-        'plain-data relay cases and shape/type error cases. Oracle: Python statistics on exact Fractions; integers '
+        'fixed cells (all functions x 2 data sets x 3 configurations, full quantiles grid), plain-data relay cases '
+        'and shape/type error cases. Oracle: Python statistics on exact Fractions; integers '
         'within 1/2 (isqrt of an admissible variance for stdev), order statistics and mode exact, fixed point within '
-        'the propagated interval of the error-tracking reference arithmetic. Non-trivial = secure data with n>=2 and '
-        'at least one numerically constrained result compared; distinct by case hash')
+        'the propagated interval of the error-tracking reference arithmetic. Non-trivial = secure data with n>=2 (or '
+        'an explicit mu) and at least one numerically constrained result compared; distinct by case hash')
 ASSUMPTIONS = [
     'reference: Python statistics (3.11+ formulas: variance(data, xbar) = sum (x-xbar)^2/(n-1)) on exact Fractions; '
     'covariance/correlation/regression by the textbook rational formulas (Python returns floats there)',
@@ -59,7 +61,7 @@ ASSUMPTIONS = [
     'constant x in correlation/linear_regression and intermediates outside the type range are unconstrained',
     'sec_param=30: probabilistic comparisons/truncations fail with probability <= 2^-30 per operation',
 ]
-CASE_TIMEOUT = 240
+CASE_TIMEOUT = 600
 
 SINGLE = ('mean', 'median', 'median_low', 'median_high', 'mode')
 SPREAD = ('variance', 'stdev', 'pvariance', 'pstdev')
@@ -70,7 +72,7 @@ FLD_P = 101
 
 
 def budget(tier):
-    return dict(shards=16, examples=70 if tier == 'quick' else 1400)
+    return dict(shards=16, examples=60 if tier == 'quick' else 700)
 
 
 def enumerate_cases(tier):
@@ -102,6 +104,22 @@ def enumerate_cases(tier):
                     if stype == 'fxp':
                         case.update(f=16, integral=integral)
                     yield case
+    # one/two-point data whose variance lies in the upper half of the type range (square roots near the top)
+    for stype, l, f in (('int', 16, 0), ('int', 32, 0), ('fxp', 16, 8), ('fxp', 32, 16), ('fxp', 64, 32), ('fxp', 32, 8)):
+        R = 1 << (l - 1 + f)
+        for frac in (60, 95):
+            D1 = math.isqrt(frac * R // 100)
+            D2 = math.isqrt(2 * frac * R // 100) // 2 * 2
+            for x, calls in (([-(D1 // 2)], [{'fn': 'pstdev', 'mu': 'sec', 'it': False, 'muval': D1 - D1 // 2, 'smu': 0},
+                                             {'fn': 'pvariance', 'mu': 'sec', 'it': False, 'muval': D1 - D1 // 2, 'smu': 0}]),
+                             ([D2 // 2 + 1, 1 - D2 // 2], [{'fn': 'stdev', 'mu': 'sec', 'it': False, 'muval': 1, 'smu': 0},
+                                                           {'fn': 'variance', 'mu': 'sec', 'it': True, 'muval': 1, 'smu': 0}] +
+                              ([{'fn': 'stdev', 'mu': 'none', 'it': False}] if stype == 'fxp' else []))):
+                seed += 1
+                case = dict(kind='sec', st=stype, m=1, t=0, prss=True, seed=seed, sx=0, sy=0, l=l, top=True, x=x, calls=calls)
+                if stype == 'fxp':
+                    case.update(f=f, integral=False)
+                yield case
     for stype in ('int', 'fxp'):
         for ld in range(2, 8):
             x = [(5 * i * i - 17 * i) % 23 - 11 for i in range(ld)]
@@ -248,17 +266,21 @@ def _secure_case(draw, tier):
         t = draw(st.sampled_from([tmax, tmax, tmax, 0]))
     prss = draw(st.booleans())
     n = draw(st.sampled_from([0, 1, 1, 2, 2, 2, 3, 3, 4, 4, 5, 5, 6, 6, 7, 8, 8, 9, 10, 11, 12, 12]))
-    calls = draw(st.lists(_call(stype), min_size=1, max_size=4))
+    calls = draw(st.lists(_call(stype), min_size=1, max_size=4 if m < 4 else 2))   # cost cap for m >= 4
     fns = {c['fn'] for c in calls}
     small = 'mode' in fns
     case = dict(kind='sec', st=stype, m=m, t=t, prss=prss, seed=draw(st.integers(0, 2**30)),
                 sx=draw(st.integers(0, m - 1)), sy=draw(st.integers(0, m - 1)))
     if stype == 'int':
         l = draw(st.sampled_from(INT_L))
+        if l > 32 and (m >= 4 or (m >= 2 and len(calls) > 2)):
+            l = 32                                # cost cap: wide types with many parties/calls
         B, step, f, integral = int_bound(l, n), 1, 0, None
         case.update(l=l)
     elif stype == 'fxp':
         l, f = draw(st.sampled_from(FXP_T if not fns & {'correlation', 'linear_regression'} else FXP_T[:7]))
+        if l > 32 and (m >= 4 or (m >= 2 and len(calls) > 2)):
+            l, f = 32, 16                         # cost cap: wide types with many parties/calls
         B = fxp_bound(l, f, n)
         integral = B >= 2 << f and draw(st.sampled_from([False, False, True] if not small else [True, True, False]))
         whole = integral or (B >= 2 << f and draw(st.integers(0, 9)) == 0)   # whole values, flag possibly False
@@ -276,11 +298,11 @@ def _secure_case(draw, tier):
         if fm != mn and draw(st.integers(0, 9)) < 7:      # mostly stay out of the F10 class
             i = x.index(mn)
             x[0], x[i] = x[i], x[0]
-    if fns & set(SPREAD) and stype != 'fld' and draw(st.integers(0, 7)) == 0:
+    if fns & set(SPREAD) and stype != 'fld' and draw(st.integers(0, 5)) == 0:
         # top of the range: one or two points whose sum of squared deviations nearly fills the type
         n = draw(st.sampled_from([1, 2, 2]))
         R = 1 << (l - 1 + f)
-        T = draw(st.integers(3 * R // 10, 96 * R // 100))
+        T = draw(st.integers((55 if draw(st.integers(0, 3)) else 30) * R // 100, 96 * R // 100))
         calls = [c for c in calls if c['fn'] in SPREAD + ('mean', 'median', 'median_high')]
         fns = {c['fn'] for c in calls}
         sh = draw(st.integers(-3, 3)) * step
@@ -435,6 +457,10 @@ class Unconstrained(Exception):
     pass
 
 
+class ReferenceBug(Exception):
+    """The check's own reference disagrees with Python: a harness error, never a violation."""
+
+
 class FX:
     """Error-tracking reference arithmetic for SecFxp(l, f) (tolerances in units u = 2^-f)."""
 
@@ -520,7 +546,7 @@ def _xcheck(case, fn, x, y, *vals):
     r = list(r) if isinstance(r, tuple) else [r]
     for a, b in zip(r, vals):
         if abs(a - float(b)) > 1e-3 * (1 + abs(float(b))):
-            raise RuntimeError(f'reference formula for {fn} disagrees with Python: {a} vs {float(b)}')
+            raise ReferenceBug(f'reference formula for {fn} disagrees with Python: {a} vs {float(b)}')
 
 
 def shape_error(call, nx, ny):
@@ -564,7 +590,7 @@ def expected(case, call, mbar):
         if sys.version_info < (3, 13):   # the rule above is Python's own behaviour
             try:
                 _py_call(fn, [Fr(v) for v in xr], [Fr(v) for v in yr], dict(call, method='inclusive'), None)
-                raise RuntimeError(f'reference rule disagrees with Python: {fn} did not raise on {nx},{ny}')
+                raise ReferenceBug(f'reference rule disagrees with Python: {fn} did not raise on {nx},{ny}')
             except pst.StatisticsError:
                 pass
         return ('exc', err)
@@ -804,6 +830,9 @@ def _run_secure(case):
         sim.close()
     if res.inconclusive:
         return Outcome(True, inconclusive=True, labels=labels, nontrivial=False, n=len(calls))
+    if any('CaseTimeout' in e for _, e in res.errors):
+        from vlib.runner import CaseTimeout      # the watchdog fired inside a party's event loop step
+        raise CaseTimeout()
     if not res.all_done:
         return Outcome(False, f'run did not complete (exception inside a protocol coroutine or deadlock): '
                        f'{res.describe()[:1500]}\ncase={case}', labels=labels, n=len(calls))
@@ -863,7 +892,7 @@ def _run_secure(case):
             labels.append('unconstrained:' + fn)
         if tight:
             labels.append(f'{fn}:{tight}')
-        constrained = constrained or (con and nx >= 2)
+        constrained = constrained or (con and (nx >= 2 or c.get('mu') in ('sec', 'pub')))
         if not ok:
             fails.append(f'{tag}: {msg}')
     if fails:
@@ -914,7 +943,7 @@ def run_case(case):
         return _run_secure(case)
     except simmod.HarnessError:
         raise
-    except AssertionError:
+    except (AssertionError, ReferenceBug):
         raise
     except Exception:
         return Outcome(False, f'exception on valid input: {traceback.format_exc()[-2500:]}\ncase={case}')
